@@ -222,3 +222,70 @@ def is_sym(v):
 
 def is_concrete_scalar(v):
     return v is None or isinstance(v, (int, float, str, bool))
+
+
+class AnyValue(Ext):
+    """A value about which nothing is known (content of mutable global state at call entry: the
+    history quantifier makes every call's pre-state arbitrary).  Every observation yields a fresh
+    unconstrained result, so no path through the function can rely on it."""
+
+    def __init__(self, label):
+        self.label = label
+
+    def _fresh(self, eng, what):
+        eng.abstraction("mutable module-level state `%s` is arbitrary at call entry" % self.label.split(".")[0].split("[")[0])
+        return AnyValue("%s.%s" % (self.label, what))
+
+    def sym_getattr(self, eng, name):
+        me = self
+        if name in ("get", "pop", "setdefault", "copy", "keys", "values", "items", "index", "count"):
+            return stub(lambda eng, *a, **k: me._fresh(eng, name + "()"))
+        if name in ("add", "append", "update", "extend", "discard", "remove", "clear", "insert", "sort"):
+            return stub(lambda eng, *a, **k: None)
+        return self._fresh(eng, name)
+
+    def sym_setattr(self, eng, name, value):
+        pass
+
+    def sym_call(self, eng, args, kwargs):
+        return self._fresh(eng, "()")
+
+    def sym_getitem(self, eng, key):
+        return self._fresh(eng, "[]")
+
+    def sym_setitem(self, eng, key, value):
+        pass
+
+    def sym_delitem(self, eng, key):
+        pass
+
+    def sym_contains(self, eng, item):
+        return eng.fresh_bool("any_in")
+
+    def sym_len(self, eng):
+        n = eng.fresh_int("any_len")
+        eng.assume(n >= 0)
+        return n
+
+    def sym_truth(self, eng):
+        return eng.fresh_bool("any_truth")
+
+    def sym_iter(self, eng):
+        raise Unsupported("iteration over arbitrary global state %s" % self.label)
+
+    def sym_binop(self, eng, op, other, reflected):
+        if op in ("Lt", "LtE", "Gt", "GtE"):
+            return eng.fresh_bool("any_cmp")
+        return self._fresh(eng, op)
+
+    def sym_inplace(self, eng, op, other):
+        return self
+
+    def sym_unop(self, eng, op):
+        return self._fresh(eng, op)
+
+    def sym_eq(self, eng, other):
+        return eng.fresh_bool("any_eq")
+
+    def sym_isinstance(self, eng, cls):
+        return eng.fresh_bool("any_isinstance")
